@@ -151,9 +151,13 @@ func c13Triangles(v c13Vec) []*sdf.Triangle3 {
 	if r.Intn(12) == 0 {
 		n = 250 + r.Intn(20)
 	}
-	mag := r.Intn(7)
+	mag := r.Intn(8)
+	far := 1e7 * float64(1+r.Intn(3)) * []float64{1, -1}[r.Intn(2)]
+	edge := []float64{1, 30, 0.05}[r.Intn(3)]
 	coord := func() float64 {
 		switch mag {
+		case 7: // a small triangle far from the origin, with coordinates that are not float32 values
+			return far + edge*r.NormFloat64()
 		case 0: // unit scale
 			return r.NormFloat64() * 10
 		case 1: // tiny, including the float32 subnormal range
@@ -283,7 +287,7 @@ func c13Normal(rec [25]int, in [9]float64) [6]int {
 	}
 	cl := new(big.Float).SetPrec(300).Sqrt(c2)
 	// nearly degenerate (not judged): sin(angle between the edges) < 1e-6, or an edge shorter than 1e-6 of the
-	// largest coordinate (the float64 subtraction / cross product of the code may then lose the direction)
+	// largest coordinate times 1e-9 (the float64 subtraction of the code may then lose the direction)
 	m := 0.0
 	for _, x := range in {
 		m = math.Max(m, math.Abs(x))
@@ -300,7 +304,9 @@ func c13Normal(rec [25]int, in [9]float64) [6]int {
 	eps := big.NewFloat(1e-6)
 	lim := new(big.Float).SetPrec(300).Mul(ul, wl)
 	lim.Mul(lim, eps)
-	ml := new(big.Float).SetPrec(300).Mul(new(big.Float).SetFloat64(m), eps)
+	// (edges: the float64 subtraction of two coordinates of size m is good to 1e-16 m, so an edge down to 1e-9 m
+	// still has a direction good to 1e-7 rad - far inside the 1e-6 tolerance on 1 - cos)
+	ml := new(big.Float).SetPrec(300).Mul(new(big.Float).SetFloat64(m), big.NewFloat(1e-9))
 	if cl.Cmp(lim) < 0 || ul.Cmp(ml) < 0 || wl.Cmp(ml) < 0 {
 		out[0] = 1
 	}
